@@ -209,3 +209,78 @@ Fixpoint json_unesc (s : str) : option str :=
     else if (c =? 34) || (c <? 32) then None
     else option_map (cons c) (json_unesc r)
   end.
+
+(* ---------- reading an annotations object back (encoding/json Unmarshal into map[string]string,
+   on what json_ann can produce; entries in document order) ---------- *)
+(* after the opening quote: the decoded string and what follows the closing quote *)
+Fixpoint read_body (s : str) : option (str * str) :=
+  match s with
+  | [] => None
+  | c :: r =>
+    if c =? 34 then Some ([], r)
+    else if c =? 92 then
+      match r with
+      | [] => None
+      | e :: r' =>
+        if e =? 117 then
+          match r' with
+          | h1 :: h2 :: h3 :: h4 :: r'' =>
+            match unhex h1, unhex h2, unhex h3, unhex h4 with
+            | Some a, Some b', Some c', Some d =>
+              match read_body r'' with
+              | Some (x, rest) => Some (utf8_enc (((a * 16 + b') * 16 + c') * 16 + d) ++ x, rest)
+              | None => None
+              end
+            | _, _, _, _ => None
+            end
+          | _ => None
+          end
+        else
+          match simple_esc e with
+          | Some x => match read_body r' with Some (y, rest) => Some (x :: y, rest) | None => None end
+          | None => None
+          end
+      end
+    else if c <? 32 then None
+    else match read_body r with Some (y, rest) => Some (c :: y, rest) | None => None end
+  end.
+
+Definition read_string (s : str) : option (str * str) :=
+  match s with 34 :: r => read_body r | _ => None end.
+
+(* "key":"value" *)
+Definition read_pair (s : str) : option (kv * str) :=
+  match read_string s with
+  | Some (k, 58 :: r) =>
+    match read_string r with Some (v, r') => Some ((k, v), r') | None => None end
+  | _ => None
+  end.
+
+(* after a pair: "}" or "," pair ... *)
+Fixpoint read_more (fuel : nat) (s : str) : option (list kv * str) :=
+  match fuel with
+  | O => None
+  | S f =>
+    match s with
+    | 125 :: r => Some ([], r)
+    | 44 :: r =>
+      match read_pair r with
+      | Some (p, r') =>
+        match read_more f r' with Some (l, r'') => Some (p :: l, r'') | None => None end
+      | None => None
+      end
+    | _ => None
+    end
+  end.
+
+Definition read_obj (s : str) : option (list kv * str) :=
+  match s with
+  | 123 :: 125 :: r => Some ([], r)
+  | 123 :: r =>
+    match read_pair r with
+    | Some (p, r') =>
+      match read_more (length s) r' with Some (l, r'') => Some (p :: l, r'') | None => None end
+    | None => None
+    end
+  | _ => None
+  end.
